@@ -88,8 +88,9 @@
    the controlled scheduler (random / PCT schedules at the granularity of single
    atomic operations, tables at the grow / shrink thresholds, Clear), every
    history checked for linearizability against map[string]interface{}. *)
-From CacheV Require Import Base SpecMap TableModel TabExec Exec XMachineS XExec XExecS.
+From CacheV Require Import Base SpecMap TableModel TabExec Exec XMachineS XExec XExecS Lin.
 From CacheV.proofs Require Import C11_lists C11_table C11_idx X_maps XS_inv XS_lock XS_own XS_count XS_inst XS_cells XS_vis XS_abs XS_cinst XS_resize XS_rinst XS_read XS_rdinst XS_loadhit XS_lhinst XS_fn XS_size XS_loadmiss XS_lminst XS_range.
+From CacheV.proofs Require X_linpoints LinGen XS_stale XS_linpoints XS_linearizable XS_linpoints2 XS_linearizable2.
 From Coq Require Import NArith.
 
 Theorem C03_sequential :
@@ -504,3 +505,34 @@ Definition C03_range_nonvacuous := XS_range.range_nonvacuous.
 Print Assumptions C03_nomiss_nonvacuous.
 Print Assumptions C03_miss_nonvacuous.
 Print Assumptions C03_range_nonvacuous.
+
+(* ---------------- linearizability of map.go's machine ---------------- *)
+
+Theorem C03_linearizable :
+  forall (K V : Type) (eqd : forall a b : K, {a = b} + {a <> b}) hash idx tophash nslots seeds g sh nstripes minlen grow_only,
+    rhyps hash idx tophash nslots minlen -> forall len0 todo sched, (0 < len0)%nat ->
+    (forall t, Forall XS_linpoints.sokop (todo t)) ->
+    linearizable (@sop K V) (@sres V) (X_linpoints.amap K V) (XS_linpoints.sspec eqd) X_linpoints.aempty
+      (XS_linpoints.shist (snd (@srun K V eqd hash idx tophash nslots seeds g sh nstripes minlen grow_only (sinit nslots seeds nstripes len0 todo) sched))).
+Proof. exact @XS_linearizable.smachine_linearizable_proof. Qed.
+Print Assumptions C03_linearizable.
+
+Theorem C03_linearizable_with_range :
+  forall (K V : Type) (eqd : forall a b : K, {a = b} + {a <> b}) hash idx tophash nslots seeds g sh nstripes minlen grow_only,
+    rhyps hash idx tophash nslots minlen -> forall len0 todo sched, (0 < len0)%nat ->
+    (forall t, Forall XS_linpoints2.sokop2 (todo t)) ->
+    linearizable (@sop K V) (@sres V) (X_linpoints.amap K V) (XS_linpoints.sspec eqd) X_linpoints.aempty
+      (@XS_linearizable2.srunh K V eqd hash idx tophash nslots seeds g sh nstripes minlen grow_only (sinit nslots seeds nstripes len0 todo) sched).
+Proof. exact @XS_linearizable2.smachine_linearizable2_proof. Qed.
+Print Assumptions C03_linearizable_with_range.
+
+Definition C03_lin_between_steps_nonvacuous := XS_linearizable.s_linearizable_read_between_steps.
+Definition C03_lin_stale_table_nonvacuous := XS_linearizable.s_linearizable_stale_table_read.
+Definition C03_lin_overtaken_store_nonvacuous := XS_linearizable.s_linearizable_overtaken_store.
+Definition C03_lin_overtaken_decision_nonvacuous := XS_linearizable.s_linearizable_overtaken_decision.
+Definition C03_lin_range_visitor_nonvacuous := XS_linearizable2.s_linearizable_range_visitor.
+Print Assumptions C03_lin_between_steps_nonvacuous.
+Print Assumptions C03_lin_stale_table_nonvacuous.
+Print Assumptions C03_lin_overtaken_store_nonvacuous.
+Print Assumptions C03_lin_overtaken_decision_nonvacuous.
+Print Assumptions C03_lin_range_visitor_nonvacuous.
